@@ -389,8 +389,13 @@ func (d *Decoder) VerifyAllData() (ok bool, err error) {
 // error is returned. If checkParity is true, extra checking is done
 // of the reconstructed parity data.
 func (d *Decoder) Repair(checkParity bool) ([]string, error) {
-	if fc := d.FileCounts(); !fc.RepairPossible() {
+	fc := d.FileCounts()
+	if !fc.RepairPossible() {
 		return nil, reedsolomon.ErrTooFewShards
+	}
+	if !fc.RepairNeeded() && fc.UsableParityFileCount == 0 {
+		// Nothing to repair, and nothing to check it against.
+		return nil, nil
 	}
 
 	rs, err := d.newReedSolomon()
